@@ -5,6 +5,7 @@ d=$(realpath "$1"); id=$2; tier=${3:-quick}; w=/var/tmp/sfv-try-$$
 git -C /repo worktree add -q $w HEAD || exit 2
 trap 'git -C /repo worktree remove --force $w' EXIT
 demo=$(ls $d/demo*.py 2>/dev/null | head -1)
+[ -n "$demo" ] && cp $demo $w/ && demo=$w/$(basename $demo)
 if [ -n "$demo" ]; then
   (cd $w && PYTHONPATH=$w timeout 600 /venv/bin/python $demo >/dev/null 2>&1); echo "demo on original: exit $?"
 fi
